@@ -450,10 +450,18 @@ class Interpolator:
                         keys.append(ast.Constant(string))
                         values.append(node)
 
+                # As for a static message, white space is reduced, what
+                # leads and trails stays outside of the message, and the
+                # message is its own default.
+                text = formatting_string.strip()
+                start = formatting_string.find(text)
+                lead = formatting_string[:start]
+                trail = formatting_string[start + len(text):]
                 target = template(
-                    "translate(msgid, mapping=mapping, domain=__i18n_domain, context=__i18n_context, target_language=target_language)",   # noqa:  E501 line too long
-                    msgid=ast.Constant(
-                        formatting_string),
+                    "LEAD + translate(msgid, mapping=mapping, default=msgid, domain=__i18n_domain, context=__i18n_context, target_language=target_language) + TRAIL",   # noqa:  E501 line too long
+                    msgid=ast.Constant(re.sub(r'\s+', ' ', text)),
+                    LEAD=ast.Constant(lead),
+                    TRAIL=ast.Constant(trail),
                     mapping=ast.Dict(
                         keys=keys,
                         values=values),
